@@ -119,7 +119,7 @@ def tlc(d, module, cfg, workers=16, timeout=1800, extra=(), heap=None):
     """run TLC in directory d; returns (stdout, rc)"""
     workers = min(int(workers), int(os.environ.get("VERIF_TLC_WORKERS", "16")))
     cmd = ["tlc", "-workers", str(workers), "-metadir", os.path.join(d, "md-" + cfg.replace(".cfg", "") + f"-{time.time_ns()}"),
-           "-config", cfg] + list(extra) + [module]
+           "-noGenerateSpecTE", "-config", cfg] + list(extra) + [module]
     env = {}
     p = sh(cmd, cwd=d, timeout=timeout, check=False, env=env)
     out = p.stdout
@@ -140,6 +140,13 @@ def tlc_stats(out):
 def tlc_mc(d, module, cfg, workers=16, timeout=1800):
     """exhaustive run; returns dict(stats, ok, violated)"""
     t = time.time()
+    # guard / lead configurations EXPECT a counterexample: run them with one worker, i.e. in strict
+    # breadth-first order. (Most bounded models here hide their history variable behind a VIEW and bound the
+    # exploration by its length; with several workers the level order is only approximate at level
+    # boundaries, so which representative of a VIEW class is expanded - and whether a counterexample at the
+    # depth bound is found - may vary from run to run.)
+    if re.search(r"(_dev|_lead|_d\.cfg|dev[A-Z0-9_])", cfg):
+        workers = 1
     out, rc = tlc(d, module, cfg, workers=workers, timeout=timeout)
     st = tlc_stats(out)
     viol = re.findall(r"Error: Invariant (\w+) is violated", out) + re.findall(r"Error: Action property (\w+) is violated", out)
